@@ -5,11 +5,13 @@ From Coq Require Import String.
 From Cedar Require Export Run.
 From Cedar Require Export ConformRun.
 From Cedar Require Export TExprRun.
+From Cedar Require Export SymLitRun.
 
 Definition dispatchers : list (string -> list sexp -> option sexp) :=
   [ run_core
   ; run_conform
   ; run_texpr
+  ; run_symlit
   ].
 
 Fixpoint dispatch (ds : list (string -> list sexp -> option sexp)) (cmd : string) (args : list sexp) : sexp :=
